@@ -137,6 +137,8 @@ func (e *Ev) evBuiltin(x *ast.CallExpr, name string) Val {
 			return VInt{a.N}
 		case VRunes:
 			return VInt{a.N}
+		case VSubmatch:
+			return VInt{sIte(a.Hit, fmt.Sprintf("%d", a.N), "0")}
 		case VArr:
 			if at, ok := e.typeOf(x.Args[0]).Underlying().(*types.Array); ok {
 				return VInt{fmt.Sprintf("%d", at.Len())}
